@@ -80,7 +80,11 @@ func (ir *ifdReader) DecodeIfd(r io.Reader, h meta.ExifHeader) (err error) {
 	ir.Exif.ImageType = h.ImageType
 	ir.exifLength = h.ExifLength
 	ir.firstIfdOffset = h.FirstIfdOffset
-	ir.po = h.FirstIfdOffset
+	// the caller has consumed the 8-byte TIFF header; the first directory may start later
+	ir.po = 8
+	if err = ir.discard(int(h.FirstIfdOffset) - 8); err != nil {
+		return err
+	}
 	err = ir.readIfd(ifds.NewIFD(h.ByteOrder, ifds.IfdType(h.FirstIfd), 0, ir.tiffHeaderOffset, 0))
 	return err
 }
